@@ -14,6 +14,8 @@
 (*   eqrel_same_level   == != share the level of < <= > >=                  *)
 (*   not_only_bool_num  `not` is only evaluated on booleans and numbers      *)
 (*   not_zero_true      `not 0` is true (numbers treated like C booleans)    *)
+(*   paren_null_kept    a parenthesised expression whose value is null is    *)
+(*                      kept as a truthy value `(null)`                      *)
 (***************************************************************************)
 EXTENDS Integers, Sequences, FiniteSets, TLC
 
@@ -123,7 +125,11 @@ Not(v, Dev) ==
 RECURSIVE Eval(_, _)
 Eval(ast, Dev) ==
   CASE ast.t = "lit" -> [val |-> OperandVal(ast.tok), fx |-> IF ast.tok = "fx()" THEN 1 ELSE 0]
-    [] ast.t = "par" -> Eval(ast.a, Dev)
+    [] ast.t = "par" ->
+         LET a == Eval(ast.a, Dev) IN
+         IF "paren_null_kept" \in Dev /\ a.val = Null
+         THEN [val |-> Opaque("(null)"), fx |-> a.fx]     \* a truthy `(null)` value
+         ELSE a
     [] ast.t = "un"  ->
          LET a == Eval(ast.a, Dev) IN
          IF a.val.k \in {"err", "undef"} THEN a
@@ -159,12 +165,13 @@ Observe(toks, Dev) ==
   ELSE IF r.val.k = "err" THEN [val |-> Err, fx |-> 0]
   ELSE r
 
-AllDevs == {"andor_same_level", "eqrel_same_level", "not_only_bool_num", "not_zero_true"}
+AllDevs == {"andor_same_level", "eqrel_same_level", "not_only_bool_num", "not_zero_true", "paren_null_kept"}
 
-(* deviations whose observable differs from the ideal one on this input *)
+(* sets of deviations (every non-empty subset: deviations interact) whose    *)
+(* observable differs from the ideal one on this input                       *)
 DevMap(toks) ==
   LET ideal == Observe(toks, {}) IN
-  [d \in {d \in AllDevs : Observe(toks, {d}) # ideal} |-> Observe(toks, {d})]
+  {[d |-> S, o |-> Observe(toks, S)] : S \in {S \in (SUBSET AllDevs) \ {{}} : Observe(toks, S) # ideal}}
 
 ---------------------------------------------------------------------------
 (* Laws of the ideal grammar, checked by TLC on every generated string:     *)
